@@ -146,6 +146,22 @@ func (g *abiGen) gen(depth int, noSelArr, inArr bool) *aty {
 			}
 		}
 		t := &aty{kind: 'a', k: k, elem: e}
+		if depth >= 1 && r.Chance(1, 5) {
+			// a second (and sometimes third) array dimension with a different length: T[k][], T[][k], tuple[2][3], ...
+			for d, nd := 0, 1+r.Intn(2); d < nd; d++ {
+				k2 := 0
+				if t.k == 0 || r.Bool() {
+					k2 = 1 + r.Intn(3)
+					if k2 == t.k {
+						k2++
+					}
+				}
+				if t.k != 0 && r.Bool() {
+					k2 = 0
+				}
+				t = &aty{kind: 'a', k: k2, elem: t}
+			}
+		}
 		if noSelArr && !g.allowT {
 			unselect(t)
 		}
